@@ -758,6 +758,12 @@ class _FlattenModel:
     def model(ex, self_val, args, kw, st):
         n = fresh('n_leaves', z3.IntSort())
         st.assume(n >= 0)
+        try:
+            # Inv I3: a group with at least one child has at least one leaf (groups are non-empty at every level)
+            if isinstance(self_val, Rec) and smt.entails(st.pc, ex.zlen(st, ex.getattr(self_val, 'tokens', st)) >= 1):
+                st.assume(n >= 1)
+        except (OutsideSubset, PyExc):
+            pass
         st.ghost['NLEAVES'] = SInt(n)
 
         def at(ex_, s, k):
@@ -1116,6 +1122,8 @@ def _mk_identifier(ex, st, parent, name, items):
                                       'is_keyword': False, 'is_newline': SBool(tt == W.tt(W.T.Newline)),
                                       'normalized': SStr(val)})
             lst.append(('el', first))
+            if len(it) > 2 and it[2] == 'single':
+                continue            # exactly one whitespace token (keeps the children list fully explicit)
             sid = ex.new_seg(st, uni={'parent': g, '__values_nonempty__': True, '__ttype_in__': W.T.Whitespace},
                              name=name + '_' + it[1])
             lst.append(('seg', sid))
@@ -1474,6 +1482,7 @@ def _mk_argument(ex, st, name):
     arg_classes = (sql.Function, sql.Identifier, sql.TypedLiteral, sql.Operation, sql.Comparison, sql.Case, sql.Parenthesis)
     txt = fresh(name + '_txt', z3.StringSort())
     st.assume(z3.Length(txt) >= 1)
+    st.assume(txt != z3.StringVal(','))         # an argument is not the separator
     isg = fresh(name + '_isg', z3.BoolSort())
     tt = fresh(name + '_tt', W.TT)
     lits = [t for t in W.tt_objs if t in T.Literal] + [T.Wildcard]
@@ -1596,3 +1605,16 @@ class _GetCasesCallsite:
 
 
 REG['sqlparse.sql.Case.get_cases'] = _GetCasesCallsite
+
+
+class _LeafFlattenModel:
+    """call-site model of Token.flatten() (a leaf): the one-element sequence [self]"""
+
+    @staticmethod
+    def model(ex, self_val, args, kw, st):
+        def at(ex_, s, k):
+            return [(s, self_val)]
+        return [(st, ex.new_obj(st, 'aseq', {'N': SInt(z3.IntVal(1)), 'AT': at}))]
+
+
+REG['sqlparse.sql.Token.flatten'] = _LeafFlattenModel
